@@ -142,3 +142,10 @@ Fixpoint acc_run (s : astate) (cs : list V) : list V :=
               VL [vbool raised; VI (x_disk s'); VI (handle_code (x_handle s')); vbool (x_inside s')] :: acc_run s' r
   end.
 Definition run_access (arg : V) : V := ok (VL (acc_run a_init (vlist arg))).
+
+(* the whole file read back by the layout-driven decoders: bytes -> [header value; [entry values]; |data|] *)
+Definition run_parse_file (arg : V) : V :=
+  match parse_file (zs_of arg) with
+  | Some (hv, es, d) => ok (VL [hv; VL es; VI (zlength d)])
+  | None => fail EValue
+  end.
